@@ -36,16 +36,12 @@ fn full() -> Vec<(u64, &'static str)> {
     vec![(90, F), (91, E), (92, D), (93, C)]
 }
 
-// NOTE on multi-term texts: one insert/remove walks the terms of its text in
-// the order of a std HashMap (per-thread random seed). Insert-only templates
-// have the same schedule shape for either order and are kept; templates that
-// mix a multi-term insert with a remove of a shared term are not replayable
-// (the number of yield points depends on the order) and are left out.
-//
-// NOTE on purge_ids templates: the sweep walks `postings.iter_mut()` in the
-// DashMap's (process-random) order, so a purge that EMPTIES two postings would
-// make the schedule -> outcome map differ from run to run. Every purge below
-// empties at most one posting (others only shrink).
+// NOTE on orders the code takes from hash maps: with the `verif` feature one
+// insert/remove walks the terms of its text in SORTED order, purge_ids
+// processes emptied postings / stale buckets in sorted order and compaction
+// sorts its input first (hooks in bm25.rs); without them std's per-thread
+// random hasher seed would make schedules unreplayable. Only that one order
+// is explored.
 fn specs() -> Vec<Spec> {
     use Op::*;
     let s = |name, prefill: Vec<(u64, &'static str)>, prefill_flush, threads| Spec {
@@ -73,6 +69,10 @@ fn specs() -> Vec<Spec> {
         s("purge-vs-ins-same-id", vec![], false, vec![vec![Purge(vec![1])], vec![Insert(1, A)]]),
         s("purge-vs-compact", full_ab.clone(), false, vec![vec![Purge(vec![1])], vec![Compact], vec![Insert(2, A)]]),
         s("two-term-docs-crossed", vec![], false, vec![vec![Insert(1, AB)], vec![Insert(2, BA)]]),
+        s("two-term-doc-vs-rem", vec![(2, A)], false, vec![vec![Insert(1, AB)], vec![Remove(2, A)]]),
+        s("two-term-rem-vs-ins", vec![(1, AB)], false, vec![vec![Remove(1, AB)], vec![Insert(2, AC)]]),
+        s("two-term-rem-vs-two-term-rem", vec![(1, AB), (2, BA)], false, vec![vec![Remove(1, AB)], vec![Remove(2, BA), Insert(3, B)]]),
+        s("purge-two-postings-vs-ins", vec![(1, A), (2, B)], false, vec![vec![Purge(vec![1, 2])], vec![Insert(3, AB)]]),
         s("two-term-docs-shared-term-3", vec![], false, vec![vec![Insert(1, AB)], vec![Insert(2, AC)], vec![Insert(3, A)]]),
         s("ins-rem-twice", vec![], false, vec![vec![Insert(1, A), Remove(1, A)], vec![Insert(2, A), Remove(2, A)]]),
         s("three-writers-one-term", vec![(3, A)], false, vec![vec![Insert(1, A)], vec![Insert(2, A)], vec![Remove(3, A)]]),
@@ -104,7 +104,8 @@ fn main() {
     );
     run.assume("weak-memory reorderings of Relaxed atomics are not modelled; the commutative counter updates (total_tokens, max_document_id) have no yield point of their own");
     run.assume("yield points sit only where the thread holds no DashMap shard guard and no metadata lock; a whole-map DashMap iteration (postings.iter_mut in purge_ids, postings.iter in compact_buckets, buckets.iter) is one atomic section although it really locks shard by shard");
-    run.assume("the order in which one insert/remove walks the terms of a multi-term text is decided by std's per-thread random hasher seed and is not enumerated (two-term templates run with whatever order each call gets); flush is not run concurrently with mutations (caller's contract)");
+    run.assume("multi-term texts: insert/remove walk the terms of one text in sorted order (verif hook replacing the randomly seeded std HashMap order); other term orders are not enumerated. Same for the order in which purge_ids handles emptied postings and compaction bins equal-sized postings");
+    run.assume("flush is not run concurrently with mutations (caller's contract)");
     vthread::run_tiers(&mut run, &ts, 3, 3, 7);
     run.finish();
 }
